@@ -40,6 +40,10 @@ SPEC = {
         'AITB.Trie.ft_filter_nodup',
         'AITB.Trie.ft_size_spec',
         'AITB.Trie.fastertrie_refines_spec',
+        'AITB.Trie.permute_perm',
+        'AITB.Trie.scanRemove_rem',
+        'AITB.Trie.reconstruct_store',
+        'AITB.Trie.fastertrie_refines_spec_reconstruct',
         'AITB.Trie.matchPart_spec',
         'AITB.Trie.advPart_spec',
         'AITB.Trie.run_spec',
